@@ -288,6 +288,7 @@ pub struct RunReq {
     reps: usize,
     novf: bool,
     prev: bool,
+    prevlen: usize,
     xoff: usize,
     xlen: usize,
 }
@@ -334,7 +335,8 @@ fn parse_run(m: &HashMap<String, String>) -> RunReq {
         e: parse_i(if g("e").is_empty() { "8" } else { m.get("e").unwrap() }) as usize,
         reps: if g("reps").is_empty() { 1 } else { parse_i(&g("reps")) as usize },
         novf: g("novf") == "1",
-        prev: g("prev") == "1",
+        prev: g("prev") == "1" || !g("prevlen").is_empty(),
+        prevlen: if g("prevlen").is_empty() { 0 } else { parse_i(&g("prevlen")) as usize },
         xoff: if g("xoff").is_empty() { 0 } else { parse_i(&g("xoff")) as usize },
         xlen: if g("xlen").is_empty() { 0 } else { parse_i(&g("xlen")) as usize },
     }
@@ -424,7 +426,12 @@ fn exec_run(r: &RunReq) -> String {
                 }
                 let m2: &'static mut [u8] = unsafe { std::slice::from_raw_parts_mut(mem_p, r.mem.len()) };
                 // prev=1: the same VM first executes on another packet (the xmem bytes), then on the real one
-                let pv: &'static mut [u8] = unsafe { std::slice::from_raw_parts_mut(xmem_p, r.xmem.len()) };
+                // prevlen=N: ... or on the first N bytes of the real packet (same address, another length)
+                let pv: &'static mut [u8] = if r.prevlen > 0 {
+                    unsafe { std::slice::from_raw_parts_mut(mem_p, r.prevlen.min(r.mem.len())) }
+                } else {
+                    unsafe { std::slice::from_raw_parts_mut(xmem_p, r.xmem.len()) }
+                };
                 status = match engine {
                     "interp" => {
                         if r.prev {
